@@ -284,6 +284,9 @@ type history struct {
 	ids      []string
 	delVer   map[string]bool // version ids some client has started to delete
 	taint    map[string]bool // partitions whose content an injected disk fault made indeterminate
+	snap     bool            // snapshot run: operations on keys are also recorded in the partition of all keys
+	noSnap   bool
+	snapKeys []string // the key partitions, in the order of their index in the snapshot partition
 	recycles []*recycle      // bucket delete+re-create operations (the bucket may be absent while one is in flight)
 }
 
@@ -299,6 +302,92 @@ func (h *history) tick() int64 { h.seq++; return h.seq }
 func (h *history) add(part string, client int, call, ret int64, in, out interface{}, desc string) {
 	h.parts[part] = append(h.parts[part], porcupine.Operation{ClientId: client, Input: in, Call: call, Output: out, Return: ret})
 	h.desc[part] = append(h.desc[part], fmt.Sprintf("[%d,%d] c%d %s", call, ret, client, desc))
+	if ri, ok := in.(regIn); ok && h.snap && !h.noSnap && strings.HasPrefix(part, "k:") && (ri.Kind == "w" || ri.Kind == "d" || ri.Kind == "r") {
+		// snapshot runs: the same operation in the partition of all keys
+		idx := -1
+		for i, k := range h.snapKeys {
+			if k == part {
+				idx = i
+			}
+		}
+		if idx >= 0 {
+			h.parts["s:all"] = append(h.parts["s:all"], porcupine.Operation{ClientId: client, Input: snapIn{Kind: ri.Kind, Idx: idx, V: ri.V}, Call: call, Output: out, Return: ret})
+			h.desc["s:all"] = append(h.desc["s:all"], fmt.Sprintf("[%d,%d] c%d %s: %s", call, ret, client, part[2:], desc))
+		}
+	}
+}
+
+// ---- snapshot model: the registers of all keys of the run as one object, so
+// that a listing - one operation - shows all of them as they were at one instant
+
+type snapIn struct {
+	Kind string // w | d | r | ls
+	Idx  int
+	V    string
+}
+
+var snapModel = porcupine.Model{
+	Init: func() interface{} { return "" },
+	Step: func(state, input, output interface{}) (bool, interface{}) {
+		vals := strings.Split(state.(string), "|")
+		in := input.(snapIn)
+		for len(vals) <= in.Idx || len(vals) < 2 {
+			vals = append(vals, "")
+		}
+		switch in.Kind {
+		case "w":
+			vals[in.Idx] = in.V
+			return true, strings.Join(vals, "|")
+		case "d":
+			vals[in.Idx] = ""
+			return true, strings.Join(vals, "|")
+		case "r":
+			return output.(regOut).V == vals[in.Idx], state
+		default: // ls: every key as listed
+			got := strings.Split(output.(regOut).V, "|")
+			for i, g := range got {
+				w := ""
+				if i < len(vals) {
+					w = vals[i]
+				}
+				if g != w {
+					return false, state
+				}
+			}
+			return true, state
+		}
+	},
+	Equal: func(a, b interface{}) bool {
+		return strings.TrimRight(a.(string), "|") == strings.TrimRight(b.(string), "|")
+	},
+	DescribeOperation: func(input, output interface{}) string {
+		in := input.(snapIn)
+		switch in.Kind {
+		case "w":
+			return fmt.Sprintf("write key%d %s", in.Idx, short(in.V))
+		case "d":
+			return fmt.Sprintf("delete key%d", in.Idx)
+		case "r":
+			return fmt.Sprintf("read key%d -> %s", in.Idx, short(output.(regOut).V))
+		}
+		return "listing -> " + output.(regOut).V
+	},
+}
+
+// addSnapshot records a listing in the partition of all keys.
+func (h *history) addSnapshot(bucket string, client int, call, ret int64, seen map[string]string, what string) {
+	if !h.snap {
+		return
+	}
+	vals := make([]string, len(h.snapKeys))
+	for i, p := range h.snapKeys {
+		if strings.HasPrefix(p, "k:"+bucket+"/") {
+			vals[i] = seen[strings.TrimPrefix(p, "k:"+bucket+"/")]
+		}
+	}
+	out := strings.Join(vals, "|")
+	h.parts["s:all"] = append(h.parts["s:all"], porcupine.Operation{ClientId: client, Input: snapIn{Kind: "ls"}, Call: call, Output: regOut{out}, Return: ret})
+	h.desc["s:all"] = append(h.desc["s:all"], fmt.Sprintf("[%d,%d] c%d %s -> %s", call, ret, client, what, out))
 }
 
 // bucketMayBeAbsent reports whether a delete+re-create of the bucket overlaps
@@ -547,8 +636,12 @@ func (r *Run) execLin(ci, oi int, op *Op) {
 		}
 		r.logf("c%d#%d copy %q <- %q [%d,%d] -> %s", ci, oi, op.Key, op.SrcKey, call, ret, resp.String())
 	case "list":
+		var lq url.Values
+		if op.Delim != "" {
+			lq = url.Values{"delimiter": {op.Delim}}
+		}
 		call := h.tick()
-		resp := r.simple("GET", target(op.B, "", nil), op)
+		resp := r.simple("GET", target(op.B, "", lq), op)
 		ret := h.tick()
 		r.noPanic(resp, "list objects")
 		var x xListResult
@@ -570,13 +663,20 @@ func (r *Run) execLin(ci, oi int, op *Op) {
 			}
 			seen[c.Key] = et
 		}
+		h.noSnap = true
 		for _, k := range op.Keys {
 			h.add("k:"+op.B+"/"+k.Key, ci, call, ret, regIn{Kind: "r"}, regOut{seen[k.Key]}, "list -> "+short(seen[k.Key]))
 		}
+		h.noSnap = false
+		h.addSnapshot(op.B, ci, call, ret, seen, "list")
 		r.logf("c%d#%d list [%d,%d] -> %d keys", ci, oi, call, ret, len(x.Contents))
 	case "lsversions":
+		vq := url.Values{"versions": {""}}
+		if op.Delim != "" {
+			vq.Set("delimiter", op.Delim)
+		}
 		call := h.tick()
-		resp := r.simple("GET", target(op.B, "", url.Values{"versions": {""}}), op)
+		resp := r.simple("GET", target(op.B, "", vq), op)
 		ret := h.tick()
 		r.noPanic(resp, "list object versions")
 		if resp.Status == 404 && resp.Code == "NoSuchBucket" && h.bucketMayBeAbsent(call) {
@@ -617,7 +717,23 @@ func (r *Run) execLin(ci, oi int, op *Op) {
 				}
 			}
 		}
-		if !r.Plan.Config.LinSetVer {
+		if h.snap {
+			// never-versioned snapshot run: one 'null' version per stored key
+			seen := map[string]string{}
+			for k, v := range vers {
+				if len(v) == 1 {
+					seen[k] = v[0]
+				} else {
+					seen[k] = "several versions: " + strings.Join(v, ",")
+				}
+			}
+			h.noSnap = true
+			for _, k := range op.Keys {
+				h.add("k:"+op.B+"/"+k.Key, ci, call, ret, regIn{Kind: "r"}, regOut{seen[k.Key]}, "list-versions -> "+short(seen[k.Key]))
+			}
+			h.noSnap = false
+			h.addSnapshot(op.B, ci, call, ret, seen, "list-versions")
+		} else if !r.Plan.Config.LinSetVer {
 			for _, k := range op.Keys {
 				sort.Strings(vers[k.Key])
 				out := strings.Join(vers[k.Key], ",") + "#" + latest[k.Key]
@@ -859,6 +975,19 @@ func (r *Run) lastAckedPart(id string, n int) string {
 
 // setupLin initiates the multipart uploads the clients share.
 func (r *Run) setupLin() error {
+	cfg := r.Plan.Config
+	if cfg.LinSnap {
+		r.hist.snap = true
+		for _, k := range cfg.LinKeys {
+			r.hist.snapKeys = append(r.hist.snapKeys, "k:"+cfg.Buckets[0]+"/"+k)
+		}
+	}
+	for i := 0; i < cfg.LinFill; i++ {
+		body := []byte(fmt.Sprintf("f%d", i))
+		if _, err := r.Env.Backend.PutObject(cfg.Buckets[0], fmt.Sprintf("bulk/%05d", i), map[string]string{}, bytes.NewReader(body), int64(len(body))); err != nil {
+			return fmt.Errorf("filler object: %v", err)
+		}
+	}
 	for _, op := range r.Plan.Config.linUploads() {
 		req := &simnet.Request{Method: "POST", Target: target(op[0], op[1], url.Values{"uploads": {""}})}
 		resp := r.send(req, nil, "whole")
@@ -942,6 +1071,9 @@ func (r *Run) afterLin() {
 		if strings.HasPrefix(p, "b:") {
 			m = bucketVerModel
 		}
+		if strings.HasPrefix(p, "s:") {
+			m = snapModel
+		}
 		if len(ops) > 90 {
 			r.stats.Porcupine["skipped-too-long"]++
 			continue
@@ -974,6 +1106,12 @@ func (r *Run) afterLin() {
 			what := "the history of one key is not linearizable"
 			if cl == "lin.mpu" {
 				what = "the history of one multipart upload is not linearizable"
+			}
+			if strings.HasPrefix(p, "s:") {
+				what, ks = "the history of the run's keys taken together is not linearizable although each key's is: a listing shows keys as they were at different instants", nil
+			}
+			if strings.HasPrefix(p, "b:") {
+				what = "the history of the bucket's versioning state is not linearizable"
 			}
 			r.fail(cl, fmt.Sprintf("%s (ops: %s) %s", what, strings.Join(ks, ","), r.bctx()), "some sequential order respecting real time explains every result", p+"\n"+strings.Join(h.desc[p], "\n"))
 		}
